@@ -22,7 +22,7 @@ pub fn run<C: Suite>(ctx: &mut Ctx) {
     let slow = C::NAME == "ed448";
     let ks: Vec<usize> = match (ctx.quick(), slow) {
         (true, true) => vec![2, 3],
-        (true, false) => vec![2, 3, 4],
+        (true, false) => vec![2, 3, 4, 5],
         (false, true) => vec![2, 3, 4, 5],
         (false, false) => vec![2, 3, 4, 5, 6],
     };
